@@ -138,6 +138,11 @@ Theorem coap_batch_aligned : forall items,
       /\ forall i it, nth_error items i = Some it -> nth_error res i = Some (coap_classify (N.of_nat i) it).
 Proof. exact coap_batch_aligned_nth. Qed.
 
+(* the batch decoder's fuel always suffices: on ANY response bytes the model returns a
+   result list, the enum's ValueError or Crash (struct.error) - never OutOfFuel *)
+Theorem coap_decode_total : forall start d, coap_decode_all start d <> OutOfFuel.
+Proof. exact coap_decode_all_total. Qed.
+
 (* results zipped with the requested (aid, iid) list: ids[i] carries item i's outcome *)
 Theorem coap_result_keys : forall (K : Type) (ids : list K) items,
     items <> [] -> forallb coap_item_ok items = true -> length ids = length items ->
@@ -207,6 +212,7 @@ Print Assumptions ble_reject_missing_flag.
 Print Assumptions ble_reject_bad_seal.
 Print Assumptions coap_request_tids.
 Print Assumptions coap_batch_aligned.
+Print Assumptions coap_decode_total.
 Print Assumptions coap_result_keys.
 Print Assumptions coap_result_errors.
 Print Assumptions coap_surplus_results_crash.
